@@ -170,8 +170,8 @@ def check_C02(tier):
             for nm in ("certC", "setsClosed", "laClosed", "laTerm", "prodOK"):
                 if r.V.get(nm, ["missing"])[0] != "ok":
                     ties.append({"what": "hypothesis %s of C02_complete fails on an LALR(1) grammar" % nm, "case": r.id, "src": r.case["src"]})
-        if r.warns():
-            violations.append(viol(pid, r, "conflict warning for a grammar whose LALR(1) automaton has no conflict", {"warnings": r.warns()}))
+        if r.warns() or r.warn_any():
+            violations.append(viol(pid, r, "conflict warning for a grammar whose LALR(1) automaton has no conflict", {"warnings": r.warns(), "warning_lines": r.warn_any()}))
         for f in r.runs:
             w = r.inputs[int(f[1])]
             runs += 1
@@ -208,6 +208,7 @@ def check_C03(tier):
             ties.append({"what": "the verified oracle laL returned none (fails closed)", "case": r.id, "src": r.case["src"]})
     violations, samples = [], []
     sets = 0
+    warn_lines_seen = warn_lines_read = 0
     for r in results:
         if r.refused is not None:
             continue
@@ -223,11 +224,21 @@ def check_C03(tier):
         # cannot resolve (independent of which default wins, see DESIGN §5 C03)
         iw = sorted(set((q, s) for q, s, a, b in r.warns()))
         ow = sorted(set(tuple(int(x) for x in l.split()[2:4]) for l in rec_lines(r, "O WARN")))
-        if iw != ow:
+        any_w = r.warn_any()
+        readable = bool(iw) or not any_w          # the warning lines are in the wording this check reads
+        warn_lines_seen += bool(any_w)
+        warn_lines_read += bool(iw)
+        if (any_w is not None and (any_w > 0) != bool(ow)):
+            # grammar level, independent of the wording: a warning is printed iff an unresolved conflict exists
+            violations.append(viol(pid, r, "a conflict warning is printed although no unresolved LALR(1) conflict exists" if any_w else
+                                   "an unresolved LALR(1) conflict exists but no warning is printed", {"warning_lines": any_w, "expected_cells": ow}))
+        elif readable and iw != ow:
             violations.append(viol(pid, r, "conflict warnings differ from the unresolved LALR(1) conflicts",
                                    {"implementation": iw, "expected": ow}))
         if len(samples) < 3 and len(r.las()) > 3:
             samples.append({"case": r.id, "lookaheads": r.las()[:4], "warnings": iw[:3]})
+    if warn_lines_seen and not warn_lines_read:
+        ties.append({"what": "conflict warnings are printed but none is in the wording this check reads: only the grammar-level iff was checked, not the cells"})
     cov = std_cov(results, sets, GEN_RULE + "; evaluations = (state, rule) lookahead sets compared", samples,
                   {"partial": ["yaccgo's DeRemer-Pennello computation is validated per grammar against the VERIFIED oracle laL (C03_oracle_exact), not itself verified for all grammars"]})
     return common.conclude(pid, tier, "proof", proof, ties, violations, cov, [])
@@ -1186,6 +1197,8 @@ def check_C17(tier):
     ties += driver_cert_ties(res, variants=govars)
     violations, samples = [], []
     lines_checked = 0
+    parsed_kinds = {"S": 0, "R": 0}
+    unparseable = []
     for c in res["usable"]:
         g = c["core"].g
         if g is None:
@@ -1214,8 +1227,10 @@ def check_C17(tier):
                     m2 = re.match(r"look ahead (.*), (use Reduce:.*), go to state (-?\d+)$", ln)
                     if m1:
                         evs.append(("S", m1.group(1), int(m1.group(2))))
+                        parsed_kinds["S"] += 1
                     elif m2:
                         evs.append(("R", m2.group(1), m2.group(2), int(m2.group(3))))
+                        parsed_kinds["R"] += 1
                     else:
                         evs.append(("?", ln))
                 lines_checked += len(evs)
@@ -1231,7 +1246,7 @@ def check_C17(tier):
                         ties.append({"what": "trace events of the driver model differ from the printed trace", "case": c["id"], "variant": v[3],
                                      "input": w, "printed": r["trace"][:12], "model": mr["trace"][:12]})
                 # the property: the printed run is a legal run of the automaton that matches the reductions executed
-                what = None
+                what = "unparseable trace line" if any(e[0] == "?" for e in evs) else None
                 stack = [0]
                 ti = 0
                 k = 0
@@ -1277,8 +1292,17 @@ def check_C17(tier):
                     what = "accepted but the trace does not shift every token"
                 if len(samples) < 2 and r["verdict"] == "accept" and len(w) >= 2:
                     samples.append({"case": c["id"], "variant": v[3], "input": w, "trace": r["trace"][:10]})
-                if what:
+                if what == "unparseable trace line":
+                    unparseable.append(xviol(pid, res, c, v[3], what, {"input": w, "trace": r["trace"][:40], "log": r["log"]}))
+                elif what:
                     violations.append(xviol(pid, res, c, v[3], what, {"input": w, "trace": r["trace"][:40], "log": r["log"]}))
+    # a line that cannot be read is a garbled line only if the line format as such is still the known one
+    # (lines of both kinds were read elsewhere); a reworded trace is not a violation: the property fixes no format
+    if unparseable and (parsed_kinds["S"] == 0 or parsed_kinds["R"] == 0):
+        ties.append({"what": "the trace line format is not the one this check reads (no shift or no reduce line could be read): the printed run cannot be judged",
+                     "example": unparseable[0]["replay"].get("trace", [])[:6] if isinstance(unparseable[0].get("replay"), dict) else None})
+    else:
+        violations += unparseable
     cov = {"evaluations": lines_checked, "distinct_nontrivial": len(res["usable"]),
            "rule": "Go variants (global and -o, packed and -u) with IsTrace = true; every printed line of every run replayed against the implementation's LR(0) automaton (core dump of the same grammar) and the reduction log; evaluations = trace lines",
            "samples": samples, "runs_total": nruns, "programs": len(res["usable"]) * len(govars),
@@ -1862,6 +1886,7 @@ def check_C11(tier):
     proof = common.prove(C11_THEOREMS, C11_MODULES)
     n = 150 if tier == "quick" else 2000
     specs = [c11_spec(rng) for _ in range(n)]
+    scrape_ok, scrape_bad = {}, {}
     work = common.tmpdir("c11")
     cases, jobs = [], []
     for i, sp in enumerate(specs):
@@ -1917,16 +1942,29 @@ def check_C11(tier):
             want_consts = {nm: v["value"] for nm, v in terms.items() if nm != "$" and not nm.startswith("$operator")}
             if sp.get("eof_token"):
                 want_consts["EOF"] = -1
-            if sc["consts"] != want_consts:
-                why = "%s: constants %s differ from the token codes %s" % (target, sc["consts"], want_consts)
-            want_tr = {v["value"]: ids[nm] for nm, v in terms.items()}
-            if sc["translate"] != want_tr:
-                why = "%s: translate switch %s differs from code->symbol %s" % (target, sc["translate"], want_tr)
+            for kind, gotv, wantv, msg in (("consts", sc["consts"], want_consts, "%s: constants %s differ from the token codes %s"),
+                                           ("translate", sc["translate"], {v["value"]: ids[nm] for nm, v in terms.items()},
+                                            "%s: translate switch %s differs from code->symbol %s")):
+                if gotv == wantv:
+                    scrape_ok[(target, kind)] = scrape_ok.get((target, kind), 0) + 1
+                else:
+                    scrape_bad.setdefault((target, kind), []).append((c, msg % (target, gotv, wantv)))
         if why:
             violations.append({"key": common.finding_key({"src": c["src"]}), "what": "token codes / lexer interface: " + why,
                                "replay": {"property": pid, "grammar_file": c["src"], "why": why}})
         if len(samples) < 2:
             samples.append({"grammar_file": c["src"][:400], "codes": {nm: v["value"] for nm, v in terms.items()}})
+    # the const block / translate switch are read out of the generated text: if NO file at all yields the
+    # expected table for a target, the text has another shape than this check reads (tie), otherwise a
+    # file that differs is a wrong table (violation)
+    for key, bad in scrape_bad.items():
+        if scrape_ok.get(key, 0) == 0:
+            ties.append({"what": "the %s of the generated %s file cannot be read by this check (no file yields the expected table)" % (key[1], key[0]),
+                         "example": bad[0][1][:600]})
+        else:
+            for c, why in bad:
+                violations.append({"key": common.finding_key({"src": c["src"], "k": key[1]}), "what": "token codes / lexer interface: " + why,
+                                   "replay": {"property": pid, "grammar_file": c["src"], "why": why}})
     cov = {"evaluations": len(cases) * 3, "distinct_nontrivial": accepted,
            "rule": "random declaration mixes: explicit numbers near literal codes and near the automatic range, character literals, tagged/untagged tokens, tokens declared via %token or only via %left/%right/%nonassoc or (literals) only used in rules; front end in-process + generated Go and TypeScript files scraped for the const block and the translate switch; distinct = accepted mixes",
            "samples": samples, "programs": accepted * 2, "disagreements_checked": len(ties) + len(violations), "trusted_base": TRUSTED}
@@ -2036,7 +2074,12 @@ def check_C12(tier):
         got = d["refuse"] if d["refuse"] else ("hang" if d["hang"] else ("syntax" if d["ast_err"] else None))
         hist[(sp["plant"], str(exp), str(got))] = hist.get((sp["plant"], str(exp), str(got)), 0) + 1
         okv = (got == exp) or (exp is None and got == "toomany")
-        if not okv:
+        if not okv and exp is not None and got not in (None, "hang"):
+            # refused, as the property demands, but for a reason this check classifies differently (a reworded
+            # message, or another defect of the same grammar reported first): not a violation of the property
+            ties.append({"what": "grammar is refused as expected, but the reason is classified %r instead of %r" % (got, exp),
+                         "case": c["id"], "src": c["src"][:1200]})
+        elif not okv:
             what = ("usable grammar refused (%s)" % got) if exp is None else (
                 "unusable grammar (%s) is %s" % (exp, "processed" if got is None else "refused for another reason: %s" % got))
             violations.append({"key": common.finding_key({"src": c["src"]}), "what": what,
@@ -2314,6 +2357,11 @@ def split_top(s, sep="|"):
     return out
 
 
+C18_TEXT_KINDS = [("node header", "dot-header"), ("items shown for state", "dot-items"), ("reduce annotations", "dot-reduce"),
+                  ("listing shows", "list-header"), ("listing state header", "list-header"), ("listing items", "list-items"),
+                  ("listing transitions", "list-gotos"), ("listing lookahead sets", "list-la")]
+
+
 def check_C18(tier):
     pid = "C18"
     rng = random.Random(common.seed() * 1000003 + 18)
@@ -2362,6 +2410,7 @@ def check_C18(tier):
                              "impl": dec(x[k])[:200] if k < len(x) else "<missing>", "model": dec(y[k])[:200] if k < len(y) else "<missing>"})
     nstates = 0
     accepted = 0
+    c18_bad, c18_pass = [], 0
     for c in safe:
         lines = blocks.get(c["id"], [])
         if not lines or any(l.startswith("REFUSE") for l in lines):
@@ -2471,10 +2520,22 @@ def check_C18(tier):
             if sorted(map(canon, got)) != sorted(map(canon, exp)):
                 why = "listing lookahead sets differ from the lookaheads used for the table: %s vs %s" % (sorted(map(canon, got))[:3], sorted(map(canon, exp))[:3])
         if why:
-            violations.append({"key": common.finding_key({"src": c["src"], "why": why[:60]}), "what": "debug listing / DOT graph does not describe the generated parser: " + why,
-                               "replay": {"property": pid, "grammar_file": c["src"], "why": why}})
+            kind = next((k for pre, k in C18_TEXT_KINDS if why.startswith(pre)), "struct")
+            c18_bad.append((kind, {"key": common.finding_key({"src": c["src"], "why": why[:60]}),
+                                   "what": "debug listing / DOT graph does not describe the generated parser: " + why,
+                                   "replay": {"property": pid, "grammar_file": c["src"], "why": why}}))
+        else:
+            c18_pass += 1
         if len(samples) < 2 and n > 3:
             samples.append({"case": c["id"], "states": n, "dot_node_0": nodes.get("state_0", ("", ""))[1][:200]})
+    # the views are TEXT: when not a single grammar's view can be read the way this check reads it and all
+    # complaints are about how something is written, the notation has changed (tie); otherwise a view that
+    # differs misdescribes the parser (violation)
+    if c18_bad and c18_pass == 0 and all(k != "struct" for k, _ in c18_bad):
+        ties.append({"what": "no view is written in the notation this check reads (%s): the views cannot be judged" % sorted(set(k for k, _ in c18_bad)),
+                     "example": c18_bad[0][1]["replay"]["why"][:400]})
+    else:
+        violations += [v for _, v in c18_bad]
     cov = {"evaluations": nstates, "distinct_nontrivial": accepted,
            "rule": GEN_RULE + "; per grammar the graph object returned by DrawGrammar (nodes, item texts, edges, reduce annotations, accept decoration) and the stdout of the debug mode (states, items, transitions, lookahead sets) are parsed and compared with LR0Closure / GTable / the hooked lookaheads of the same run; evaluations = states",
            "samples": samples, "programs": accepted, "listing_lines_compared_with_model": listing_lines, "disagreements_checked": len(violations), "trusted_base": TRUSTED + ["gographviz graph object"]}
